@@ -2177,6 +2177,30 @@ int cif_value_copy_char(cif_value_tp *value, const UChar *text) {
     }
 }
 
+/*
+ * Switches the numeric locale to the "C" locale.  Returns a dynamically-allocated copy of the name of the numeric
+ * locale previously in effect, with which that locale can later be restored, or NULL if the locale cannot be switched.
+ * The caller is responsible for freeing the returned string.
+ */
+static char *set_c_numeric_locale(void) {
+    const char *current = setlocale(LC_NUMERIC, NULL);
+    char *saved = NULL;
+
+    if (current != NULL) {
+        /* the string returned by setlocale() may be overwritten by the next call, so it has to be copied */
+        saved = (char *) malloc(strlen(current) + 1);
+        if (saved != NULL) {
+            strcpy(saved, current);
+            if (setlocale(LC_NUMERIC, "C") == NULL) {
+                free(saved);
+                saved = NULL;
+            }
+        }
+    }
+
+    return saved;
+}
+
 int cif_value_init_numb(cif_value_tp *n, double val, double su, int scale, int max_leading_zeroes) {
     if ((su < 0.0) || (-scale < LEAST_DBL_10_DIGIT) || (-scale > DBL_MAX_10_EXP) || (max_leading_zeroes < 0)) {
         return CIF_ARGUMENT_ERROR;
@@ -2184,7 +2208,7 @@ int cif_value_init_numb(cif_value_tp *n, double val, double su, int scale, int m
         FAILURE_HANDLING;
         struct numb_value_s *numb = &(n->as_numb);
         int most_significant_place = MSP(val);
-        char *locale = setlocale(LC_NUMERIC, "C");
+        char *locale = set_c_numeric_locale();
 
         if (locale != NULL) {
             char *digit_buf = to_digits(val, scale);
@@ -2240,6 +2264,7 @@ int cif_value_init_numb(cif_value_tp *n, double val, double su, int scale, int m
 
                     /* restore the original locale */
                     setlocale(LC_NUMERIC, locale);
+                    free(locale);
 
                     return CIF_OK;
                 }
@@ -2252,6 +2277,7 @@ int cif_value_init_numb(cif_value_tp *n, double val, double su, int scale, int m
 
             /* restore the original locale */
             setlocale(LC_NUMERIC, locale);
+            free(locale);
         }
 
         FAILURE_TERMINUS;
@@ -2289,7 +2315,7 @@ int cif_value_autoinit_numb(cif_value_tp *numb, double val, double su, unsigned 
             int result_code = CIF_INTERNAL_ERROR;
 
             /* number formatting and parsing must be done in the C locale to ensure portability */
-            char *locale = setlocale(LC_NUMERIC, "C");
+            char *locale = set_c_numeric_locale();
 
             if (locale != NULL) {
                 char buf[BUF_SIZE];
@@ -2344,6 +2370,7 @@ int cif_value_autoinit_numb(cif_value_tp *numb, double val, double su, unsigned 
                 } /* else the formatted su overflowed, despite our checks.  The su_rule must be very large. */
 
                 (void) setlocale(LC_NUMERIC, locale);
+                free(locale);
             }
 
             return result_code;
